@@ -245,6 +245,7 @@ impl Engine for C13 {
             alpha_w: if mode == "cgr_batch" { [55, 45, 0, 0, 0, 0, 0] } else { [40, 20, 15, 10, 5, 8, 2] },
             min_len: 0,
             dup_pct: 20,
+            tab_desc_pct: 0,
         };
         let mut records = g.gen(rng);
         while records.len() < batch {
